@@ -309,6 +309,12 @@ def main(ctx):
     for pat, unit in (("(?:a|b)*c", "a"), ("(a|b|c)*d", "abc"), ("(?:.|\\n)*x", "a"), ("(?:a|b)*?c", "ab")):
         for un, use in USES[:2] + USES[-1:]:
             fam.append({"pattern": pat, "subject": (unit * 20000)[:20000], "use": use, "usen": un, "D": 400000})
+    # backtrack points left behind by every kind of choice instruction (lazy ? * {n,m}, greedy, alternation, optional groups, inside
+    # lookarounds), on matches that SUCCEED after piling up more entries than the budget allows within the step budget
+    for pat in ("(?:x??y??a)*?$", "(?:x??a)*$", "(?:a??)+?$", "(?:x{0,1}?a)*?$", "(?=(?:x??y??a)*?$)a", "(?:(?:x|)a)*$", "(?:x?y?a)*$", "(?:(x)??a)*?$", "(?:[xy]??a)*?b?$", "(?<=(?:x??a)*?)$"):
+        for n in ((9000, 12000) if ctx.quick else (6000, 9000, 12000, 20000)):
+            for un, use in USES[:2]:
+                fam.append({"pattern": pat, "subject": "a" * n, "use": use, "usen": un, "D": None})
         if not ctx.quick or pat == "(?:a|b)*c":
             # the backtrack-stack budget runs out (one entry per character, no time limit involved) under every entry point
             for un, use in USES_ALL:
